@@ -39,3 +39,21 @@ package fasthttp
 //@   ensures[complete] err != nil ==> len(buf) == 0 || !alldigits(buf, len(buf)) ||
 //@                       exists m in [1,len(buf)]: decval(buf, m) > MaxInt
 //@   ensures[errval]   err != nil ==> v == -1
+
+//@ spec pow16(i int) int = i <= 0 ? 1 : i == 1 ? 16 : i == 2 ? 256 : i == 3 ? 4096 : i == 4 ? 65536 : i == 5 ? 1048576 :
+//@     i == 6 ? 16777216 : i == 7 ? 268435456 : i == 8 ? 4294967296 : i == 9 ? 68719476736 : i == 10 ? 1099511627776 :
+//@     i == 11 ? 17592186044416 : i == 12 ? 281474976710656 : i == 13 ? 4503599627370496 : i == 14 ? 72057594037927936 :
+//@     i == 15 ? 1152921504606846976 : 18446744073709551616
+
+// readHexInt: at most maxHexIntChars hex digits are accumulated, the accumulator never overflows an int
+// (so the value is never wrapped or negative), longer numbers are rejected.
+//@ func readHexInt results v err
+//@   property C30
+//@   intsize 64 32
+//@   noterm
+//@   uses lemma byteTables
+//@   ensures[range]  err == nil ==> 0 <= v && v < pow16(maxHexIntChars)
+//@   ensures[errval] err != nil ==> v == -1
+//@   loop 1:
+//@     invariant[digits] 0 <= i && i <= maxHexIntChars
+//@     invariant[value]  0 <= n && n < pow16(i)
